@@ -62,8 +62,8 @@ ExpectedOf(j) == [b \in 1..Loads[j][2] |->
                     [k |-> BaseOf(j) + b - 1, cnt |-> 1, s |-> (j - 1) % T, q |-> SeqBefore(j, (j - 1) % T) + b - 1]]
 RECURSIVE ExpectedUpTo(_)
 ExpectedUpTo(j) == IF j = 0 THEN <<>> ELSE ExpectedUpTo(j - 1) \o ExpectedOf(j)
-Expected == ExpectedUpTo(NLoads)
 ExpectedLen == 16 * TotalBlocks - DecPad
+Expected == SubSeq(ExpectedUpTo(NLoads), 1, (ExpectedLen + 15) \div 16)
 
 \* ---- initial state ---------------------------------------------------------
 Init == /\ st = [i \in Bufs |-> "EMPTY"] /\ mtx = [i \in Bufs |-> NoOne]
@@ -192,8 +192,8 @@ IOBegin == /\ pcio = "bu"
 IOExport == /\ pcio = "ex0"
             /\ LET b == buf[turn] IN
                IF Unbounded THEN out' = out /\ outlen' = outlen
-               ELSE IF b.final
-               THEN /\ out' = out \o SubSeq(b.data, 1, b.now)
+               ELSE IF b.final       \* only blocks of which at least one byte survives the strip appear in the output
+               THEN /\ out' = out \o SubSeq(b.data, 1, (16 * b.now - DecPad + 15) \div 16)
                     /\ outlen' = outlen + 16 * b.now - DecPad
                ELSE /\ out' = out \o b.data /\ outlen' = outlen + 16 * b.total
             /\ pcio' = "ex1"
